@@ -35,7 +35,7 @@ def chunks(tag, ops, n=120):
 
 
 # ---------------------------------------------------------------------------------- stream 1
-X_SPECIAL = [-1e300, -3.0, -1e-300, -0.0, 0.0, 5e-324, 1e-300, 1e-9, 0.3, 0.5, 0.95, 1.0, 1.5, 7.0, 60.0, 1e5]
+X_SPECIAL = [-math.inf, -1e300, -3.0, -1e-300, -0.0, 0.0, 5e-324, 1e-300, 1e-9, 0.3, 0.5, 0.95, 1.0, 1.5, 7.0, 60.0, 1e5, 1e300, math.inf, math.nan]
 SHAPE_SPECIAL = [-2.0, -1e-300, -0.0, 0.0, 1e-300, 0.05, 0.5, 1.0, 2.5, 30.0, 200.0]
 RATE_SPECIAL = [-1.0, -1e-300, -0.0, 0.0, 1e-3, 0.5, 1.0, 40.0, 1e3]
 P_SPECIAL = [-1.0, -1e-300, -0.0, 0.0, 1e-300, 1e-21] + around(1e-20) + [1e-12, 1e-7] + around(.000002) + [1e-3, 0.25] \
@@ -302,6 +302,8 @@ def explore(rng, n):
         # ---- end points of the support
         ops.append(acc("ends", "pgamma", 0.0, 0.0, 0.0, a, b))
         ops.append(acc("ends", "pgamma", TOL_GAMMA, 1.0, (a + 40 * math.sqrt(a) + 800) / b * log_uniform(rng, 1, 1e290 * min(b, 1.0)), a, b))
+        ops.append(acc("ends", "pgamma", 0.0, 1.0, math.inf, a, b))
+        ops.append(acc("ends", "pchisq", 0.0, 1.0, math.inf, v))
         ops.append(acc("ends", "pchisq", 0.0, 0.0, 0.0, v))
         ops.append(acc("ends", "pchisq", TOL_GAMMA, 1.0, (v + 40 * math.sqrt(v) + 1700) * log_uniform(rng, 1, 1e290), v))
         ops.append(acc("ends", "pbeta", 0.0, 0.0, 0.0, al, be))
@@ -379,7 +381,7 @@ def explore(rng, n):
 # transcribed kernels (`k.*`, bit-exact tie) and the exact reflections (`refl.*`).  Every generator
 # below is aimed at one decision of the anchored code; props/C08.coverage.md lists which.
 def lg(a):
-    return math.lgamma(a) if a > 0 else 0.0
+    return math.lgamma(a) if a > 0 else (a if a != a else 0.0)
 
 
 def clampp(p):
@@ -407,6 +409,11 @@ def ig_point(rng):
     rescaling of the continued fraction (|pn[4]| >= 1e30), pn[5] == 0"""
     a = log_uniform(rng, 0.05, 200)
     k = rng.randrange(12)
+    if rng.random() < 0.02:
+        # non-finite arguments: isinf(x) -> 1 (cpp:158), NaN / infinite shape propagate through the series
+        x = rng.choice([math.inf, math.inf, math.nan, gamma_x(rng, a, 1.0)])
+        a = rng.choice([a, a, math.inf, math.nan, float(rng.randint(1, 5))])
+        return x, a
     if k <= 3:
         x = gamma_x(rng, a, 1.0)
     elif k == 4:
